@@ -89,6 +89,7 @@ THEOREMS = [
     "Typedpy.C18.deserInvalid_nil_ctorOnly",
     "Typedpy.C18.two_phase_deep_example",
     "Typedpy.C18.fixed_nested_structure_examples",
+    "Typedpy.C18.p1SitesD_tops",
 ]
 RULE = ("flat classes (1..5 fields: Integer/Number/Float incl. sign variants, String, Boolean, Enum, and Array/Deque/"
         "Set/Tuple/Map over them) from the type-directed declaration generator; per class a valid argument set, then "
